@@ -17,6 +17,8 @@ MODULES = ["FlVerif.Props.C06"]
 NAMESPACE = "C06"
 TIE_A = ["Norm.", "Hedge.", "code:fuzzylite.term.Function.infix_to_postfix", "code:fuzzylite.rule.Antecedent.load",
          "code:fuzzylite.rule.Antecedent.activation_degree", "code:fuzzylite.term.Aggregated.activation_degree"]
+TIE_A += ["code:fuzzylite.rule.Proposition.__str__", "code:fuzzylite.rule.Antecedent.prefix",
+          "code:fuzzylite.rule.Antecedent.infix", "code:fuzzylite.rule.Antecedent.postfix"]
 RULE = ("antecedent trees to depth 4 over 1-3 input variables and 1-2 output variables (with 0-3 prior activations, "
         "repeated terms, every aggregation operator or none), 0-3 hedges per proposition, `any`, disabled variables, "
         "written with minimal | random redundant | full parentheses, with / without spaces around parentheses, every "
